@@ -556,7 +556,27 @@ def univariate_pair(ctx, rep):
     fitted = [x for x in walk_no_nested(from_dict.node) if isinstance(x, ast.Assign) and any(
         isinstance(t, ast.Attribute) and t.attr == 'fitted' for t in x.targets) and const_value(x.value) is True]
     if not calls:
-        rep.undecided('D1.passthrough', from_dict, from_dict.node.name, 'no call of _set_params in from_dict: how the parameters are restored is not derived')
+        # positive evidence: the dict (or its copy) is only ever used to take the type tag out: the parameters go nowhere
+        names = {dparam}
+        for a_ in walk_no_nested(from_dict.node):
+            if isinstance(a_, ast.Assign) and len(a_.targets) == 1 and isinstance(a_.targets[0], ast.Name) \
+                    and any(isinstance(x, ast.Name) and x.id in names for x in ast.walk(a_.value)):
+                v_ = a_.value
+                if isinstance(v_, ast.Call) and isinstance(v_.func, ast.Attribute) and v_.func.attr in ('copy',) or (isinstance(v_, ast.Call) and call_name(v_) in ('dict', 'deepcopy')):
+                    names.add(a_.targets[0].id)
+        other_uses = []
+        for x in walk_no_nested(from_dict.node):
+            if isinstance(x, ast.Name) and x.id in names and isinstance(x.ctx, ast.Load):
+                par = getattr(x, '_parent', None)
+                tag_only = (isinstance(par, ast.Attribute) and par.attr in ('pop', 'get', 'copy') and isinstance(getattr(par, '_parent', None), ast.Call)) \
+                    or (isinstance(par, ast.Subscript) and isinstance(const_value(par.slice), str)) or (isinstance(par, ast.Call) and call_name(par) in ('dict', 'deepcopy'))
+                if not tag_only:
+                    other_uses.append(x)
+        if not other_uses:
+            rep.bad('D1.passthrough', from_dict, from_dict.node.name, 'from_dict takes the type tag out of the dict and never hands the remaining parameters to the rebuilt model',
+                    construct='from_dict')
+        else:
+            rep.undecided('D1.passthrough', from_dict, from_dict.node.name, 'no call of _set_params in from_dict: how the parameters are restored is not derived')
     else:
         rep.check('D1.passthrough', from_dict, calls[0], bool(fitted),
                   'hands the remaining params to _set_params and marks the instance fitted',
@@ -1004,7 +1024,50 @@ def d8(ctx, rep):
         rep.bad('D8.const', cc, tolerant[0], f'fit decides constancy with {call_name(tolerant[0])}(), a tolerance test: data that is not constant is fitted as a point mass',
                 construct='fit-side constancy test')
     elif counts_unique:
-        rep.ok('D8.const', cc, cc.node.name, 'fit: constant iff exactly one unique value', construct='fit-side constancy test')
+        # polarity: the predicate is true for one unique value and false for two or more
+        from ..boolcond import Conds, atoms_of, evaluate as bc_eval, f_and, f_or
+        cd = Conds(prog, cc)
+        _normal, _raises, rets_ = cd.exits()
+        true_f = []
+        recognised = True
+        for st_, cond_ in rets_:
+            v_ = st_.value
+            if isinstance(v_, ast.Constant) and isinstance(v_.value, bool):
+                if v_.value:
+                    true_f.append(cond_)
+            elif v_ is not None:
+                true_f.append(f_and(cond_, cd.formula(v_)))
+            else:
+                recognised = False
+        f_true = f_or(*true_f) if true_f else False
+
+        def env_for(n_unique):
+            env = {}
+            for k_ in atoms_of(f_true):
+                body = k_[3:-1] if k_[:3] in ('eq[', 'lt[') else None
+                if body is None or '|' not in body:
+                    return None
+                a_, b_ = body.split('|', 1)
+
+                def val(t_):
+                    try:
+                        return float(t_)
+                    except ValueError:
+                        return float(n_unique) if ('unique' in t_ and t_.startswith('len(')) or 'nunique' in t_ else None
+                x_, y_ = val(a_), val(b_)
+                if x_ is None or y_ is None:
+                    return None
+                env[k_] = (x_ == y_) if k_.startswith('eq[') else (x_ < y_)
+            return env
+        envs = {n_: env_for(n_) for n_ in (1, 2, 7)}
+        if not recognised or any(e_ is None for e_ in envs.values()):
+            rep.undecided('D8.const', cc, cc.node.name, 'the condition under which fit treats the data as constant is not a test on the number of unique values alone',
+                          construct='fit-side constancy test')
+        else:
+            got = {n_: bool(bc_eval(f_true, e_)) if f_true not in (True, False) else bool(f_true) for n_, e_ in envs.items()}
+            rep.check('D8.const', cc, cc.node.name, got == {1: True, 2: False, 7: False}, 'fit: constant iff exactly one unique value',
+                      f'fit treats the data as constant for {[n_ for n_, g_ in got.items() if g_]} unique value(s) (of 1, 2, 7 tried symbolically): '
+                      'the point-mass model is used for the wrong data', construct='fit-side constancy test')
     else:
         rep.bad('D8.const', cc, cc.node.name, 'fit no longer decides constancy by counting the unique values', construct='fit-side constancy test') if any(
             isinstance(x, ast.Call) and call_name(x) in ('min', 'max', 'std', 'var', 'ptp', 'all') for x in ast.walk(cc.node)) else \
